@@ -32,6 +32,16 @@ THEOREMS = [
     "PorepyVerif.C16.tpsa_translation_face_fluxes",
     "PorepyVerif.C16.tpsa_translation_solves",
     "PorepyVerif.C16.tpsa_translation_unique",
+    "PorepyVerif.C16.nonsingular_one_cell_dirichlet",
+    "PorepyVerif.C16.tpsa_translation_unique_one_cell",
+    "PorepyVerif.C16.nonsingular_grid21",
+    "PorepyVerif.C16.strip_null_mode",
+    "PorepyVerif.C16.strip_singular_1",
+    "PorepyVerif.C16.strip_singular_3",
+    "PorepyVerif.C16.tpsa_robin_stress",
+    "PorepyVerif.C16.tpsa_robin_zero_stress_iff",
+    "PorepyVerif.C16.tpsa_robin_face_disp",
+    "PorepyVerif.C16.robin_not_translation_consistent",
 ]
 LEAN_MODULES = ["PorepyVerif.C16.Props"]
 AUDIT = "PorepyVerif/C16/Audit.lean"
@@ -43,6 +53,7 @@ TOL_RESID = 1e-10
 TOL_SOLVE = 1e-8     # relative to max(1, |t|_inf); widened to 1e-15 * cond(A) for ill-conditioned systems
 TOL_CORR = 1e-9
 RESID_MAX_CELLS = {"quick": 8, "thorough": 16}
+MATRIX_MAX_UNKNOWNS = {"quick": 14, "thorough": 30}  # assembled system matrix compared entry-wise up to this size
 RULE = ("grids: 2-D Cartesian / structured triangles, 3-D Cartesian / structured tetrahedra, 1..3 (quick) resp. 1..5 (thorough, 2-D) / 1..3 (3-D) "
         "cells per direction incl. single cells and single rows, anisotropic dyadic extents, node perturbation 0 / 1/4 / 1/2 of the mesh size "
         "(boundary nodes too, hexahedral faces become non-planar); constant Lame parameters mu in 1/4..64, lambda in 1/8..128; translation "
@@ -52,7 +63,9 @@ RULE = ("grids: 2-D Cartesian / structured triangles, 3-D Cartesian / structured
         "and the stress is checked on the other faces). Mixed systems whose matrix is singular (condition number > 1e11: one-cell-wide strips with free "
         "lateral faces, ~1-2% of the cases) are outside the nonsingularity hypothesis: checked for zero stress and zero residual only, counted in "
         "input_distribution. non-trivial = t != 0 and the grid has an interior face; distinct = distinct cases. "
-        "Tie: EVERY face of every grid (all ten matrices, rows of the face); cell residual at a random state for grids up to 8 (16) cells.")
+        "Generation is stratified: grid family x boundary mode cycle deterministically (roller faces on all four families in every run). "
+        "Tie: EVERY face of every grid (all ten matrices, rows of the face); cell residual at a random state for grids up to 8 (16) cells; the "
+        "assembled system matrix div F - accum and right-hand-side matrix div R entry-wise for systems up to 14 (30) unknowns.")
 TRUSTED = [
     "modelled, not verified: the vectorised assembly in Tpsa.discretize (bincount / kron / dia_array / csr_matrix_from_dense_blocks glue, raveling "
     "orders, explicit-zero handling of the complement maps); it is tied to the per-face formula model on every face of every generated grid by the "
@@ -74,9 +87,14 @@ EXPLANATION = ("CORE (partial): Lean model over Q of the per-face TPSA expressio
                "averaging maps and complements, Dirichlet / Neumann / Robin treatment per direction, 2-D and 3-D rotation branches) and of the assembled "
                "system. Theorems for ALL faces / grids / weights / translation vectors: zero face stress, face displacement = t, rotation and mass fluxes "
                "= -n x t, n.t, every balance equation of every closed cell holds for (t,0,0) with Dirichlet datum t and zero Neumann traction (any mix per "
-               "direction), and with a nonsingular system any solution is (t,0,0). The vectorised assembly is bridged by the correspondence check on every "
+               "direction), and with a nonsingular system any solution is (t,0,0). Nonsingularity is PROVED for every one-cell all-Dirichlet grid (any shape, "
+               "2-D/3-D, symbolic data) and, by explicit computation, for a two-cell grid with an interior face; the singular mixed case is characterised "
+               "(strip one cell wide, traction-free sides: the translation plus a discrete shear/rotation mode both solve the system, so it is provably "
+               "singular); Robin faces: closed form of the stress row and of the face displacement, and a proof that no Robin datum is consistent with a "
+               "translation in both (which is why the property excludes Robin). The vectorised assembly is bridged by the correspondence check on every "
                "face; rounding and the sparse solve by the oracle.")
-ASSUMPTIONS = ["the system matrix is nonsingular (hypothesis of tpsa_translation_unique; observed: spsolve succeeds)",
+ASSUMPTIONS = ["the system matrix is nonsingular (hypothesis of tpsa_translation_unique; proved for one-cell all-Dirichlet grids and a two-cell grid, "
+               "observed elsewhere: condition number < 1e11 and spsolve succeeds; provably false for one-cell-wide strips with traction-free sides)",
                "cells are closed and interior faces carry signs +1/-1 (re-checked by the oracle on every grid)",
                "no Robin faces for the property statements (the property quantifies over Dirichlet / mixed Dirichlet-Neumann data)"]
 
@@ -130,9 +148,16 @@ def _dy(rng, lo, hi, den):
     return Fraction(rng.randint(lo * den, hi * den), den)
 
 
+_STRATA = [(k, m) for m in ("roll", "dir", "mixed", "roll", "rob") for k in ("cart2", "tri", "cart3", "tet")]
+_COUNT = {"n": 0}
+
+
 def gen_case(rng, tier):
+    """Stratified: the grid family (2-D Cartesian / triangles, 3-D Cartesian / tetrahedra) and the boundary mode cycle
+    deterministically, so that every run has component-wise mixed ('roller') faces on all four families."""
     big = tier == "thorough"
-    kind = rng.choice(["cart2", "cart2", "tri", "tri", "cart3", "cart3", "tet", "tet"])
+    kind, mode = _STRATA[_COUNT["n"] % len(_STRATA)]
+    _COUNT["n"] += 1
     if kind in ("cart2", "tri"):
         m = 5 if big else 3
         n = [rng.randint(1, m), rng.randint(1, m)]
@@ -156,7 +181,6 @@ def gen_case(rng, tier):
             gs["pert"] = {"1/2": "1/4", "1/4": "1/8"}.get(gs["pert"], "0")
     nd = g.dim
     bf = [int(f) for f in g.get_all_boundary_faces()]
-    mode = rng.choice(["dir", "dir", "dir", "mixed", "mixed", "mixed", "roll", "roll", "roll", "rob"])
     neu, rob = [], []
     keep = rng.choice(bf)  # one face stays fully Dirichlet
     if mode == "mixed":
@@ -164,7 +188,12 @@ def gen_case(rng, tier):
         neu = [[f, d] for f in bf if f != keep and rng.random() < p for d in range(nd)]
     elif mode == "roll":
         p = rng.choice([0.2, 0.4, 0.7])
-        neu = [[f, d] for f in bf for d in range(nd) if f != keep and rng.random() < p]
+        others = [f for f in bf if f != keep]
+        forced = {}
+        for f in rng.sample(others, min(len(others), rng.randint(1, 3))):  # genuine rollers: a proper, non-empty subset of directions
+            k = rng.randint(1, nd - 1)
+            forced[f] = set(rng.sample(range(nd), k))
+        neu = [[f, d] for f in others for d in range(nd) if (d in forced[f] if f in forced else rng.random() < p)]
     elif mode == "rob":
         cand = [f for f in bf if f != keep]
         rng.shuffle(cand)
@@ -261,6 +290,10 @@ def _with_resid(case, s):
     return s["nc"] <= RESID_MAX_CELLS.get(case.get("tier", "quick"), 8)
 
 
+def _with_matrix(case, s):
+    return s["nc"] * (s["nd"] + s["rd"] + 1) <= MATRIX_MAX_UNKNOWNS.get(case.get("tier", "quick"), 14)
+
+
 def impl_run(case):
     s = _setup(case)
     nd, nf, nc, rd, M = s["nd"], s["nf"], s["nc"], s["rd"], s["M"]
@@ -280,7 +313,10 @@ def impl_run(case):
             Rr[rw, gcols] = 0
         rows_out.append(tab)
     off = max(float(np.abs(Fr).max(initial=0.0)), float(np.abs(Rr).max(initial=0.0)))
-    out = {"rows": rows_out, "offpattern": off, "res": None}
+    out = {"rows": rows_out, "offpattern": off, "res": None, "A": None, "B": None}
+    if _with_matrix(case, s):
+        out["A"] = [[float(v) for v in row] for row in (s["div"] @ s["F"] - s["accum"]).toarray()]
+        out["B"] = [[float(v) for v in row] for row in (s["div"] @ s["R"]).toarray()]
     if _with_resid(case, s):
         u, rr, p, gb = _rand_state(case, s)
         x = np.array([float(v) for c in u for v in c] + [float(v) for c in rr for v in c] + [float(v) for v in p])
@@ -314,6 +350,10 @@ def model_ops(case):
                     "faces": [_face_op(s, f, {"g": pad(gb[f])}) for f in range(s["nf"])],
                     "cells": [{"vol": frac(g.cell_volumes[c]), "mu": frac(s["mu"]), "lam": frac(s["lam"])} for c in range(s["nc"])],
                     "u": [pad(v) for v in u], "r": [rpad(v) for v in rr], "p": [frac(v) for v in p]})
+    if _with_matrix(case, s):
+        g = s["g"]
+        ops.append({"op": "matrix", "dim": s["nd"], "faces": [_face_op(s, f) for f in range(s["nf"])],
+                    "cells": [{"vol": frac(g.cell_volumes[c]), "mu": frac(s["mu"]), "lam": frac(s["lam"])} for c in range(s["nc"])]})
     return ops
 
 
@@ -323,7 +363,11 @@ def model_decode(outs, case):
     bad = [o for o in outs if isinstance(o, dict) and "err" in o]
     if bad:
         return {"driver_error": bad[0]}
-    return {"rows": [o["rows"] for o in outs[:nf]], "offpattern": 0.0, "res": outs[nf]["res"] if len(outs) > nf else None}
+    rest = outs[nf:]
+    res = next((o["res"] for o in rest if "res" in o), None)
+    mat = next((o for o in rest if "A" in o), None)
+    return {"rows": [o["rows"] for o in outs[:nf]], "offpattern": 0.0, "res": res,
+            "A": mat["A"] if mat else None, "B": mat["B"] if mat else None}
 
 
 def _fl(v):
@@ -365,6 +409,20 @@ def compare(impl, model, case):
         if badm.any():
             i, j = np.argwhere(badm)[0].tolist()
             return f"cell residual cell {i} equation {j}: impl {A[i, j]!r} vs model {B[i, j]!r}"
+    for nm in ("A", "B"):
+        if (impl.get(nm) is None) != (model.get(nm) is None):
+            return f"assembled matrix {nm} computed on one side only"
+        if impl.get(nm) is not None:
+            X = np.array(impl[nm], dtype=float)
+            Y = np.array([[_fl(v) for v in row] for row in model[nm]], dtype=float)
+            if X.shape != Y.shape:
+                return f"assembled matrix {nm}: shape {X.shape} vs {Y.shape}"
+            sc = max(float(np.abs(Y).max(initial=0.0)), 1e-300)
+            badm = np.abs(X - Y) > TOL_CORR * np.maximum(np.abs(X), np.abs(Y)) + 1e-12 * sc
+            if badm.any():
+                i, j = np.argwhere(badm)[0].tolist()
+                return (f"assembled system {'matrix div F - accum' if nm == 'A' else 'right-hand-side matrix div R'} entry ({i},{j}): "
+                        f"impl {X[i, j]!r} vs model {Y[i, j]!r}")
     return None
 
 
@@ -497,7 +555,7 @@ def shrink_candidates(case):
 def stats(cases, impl_outs):
     from collections import Counter
 
-    kinds, perts, modes, dims = Counter(), Counter(), Counter(), Counter()
+    kinds, perts, modes, dims, roll_fam = Counter(), Counter(), Counter(), Counter(), Counter()
     nfaces = ncells = n_int = n_dir = n_neu = n_rob = n_roll = n_res = 0
     for c, o in zip(cases, impl_outs):
         gs = c["grid"]
@@ -514,11 +572,14 @@ def stats(cases, impl_outs):
             n_dir += all(k == "dir" for k in ks)
             n_neu += all(k == "neu" for k in ks)
             n_roll += ("dir" in ks) and ("neu" in ks)
+        roll_fam[f"{gs['kind']}{len(gs['n'])}d"] += sum(1 for f in range(s["nf"]) if "dir" in s["kinds"][f][: s["nd"]] and "neu" in s["kinds"][f][: s["nd"]])
         modes["rob" if c["rob"] else ("dir" if not c["neu"] else "dir+neu")] += 1
         n_res += isinstance(o, dict) and o.get("res") is not None
     return {"grids": dict(kinds), "cells_per_direction": dict(dims), "perturbation": dict(perts), "boundary_modes": dict(modes),
             "faces_tied_to_model": nfaces, "cells": ncells, "faces_interior": n_int, "faces_dirichlet": n_dir, "faces_neumann": n_neu,
             "faces_rolling": n_roll, "faces_robin": n_rob, "cases_with_residual_tie": n_res,
+            "cases_with_assembled_matrix_tie": sum(1 for o in impl_outs if isinstance(o, dict) and o.get("A") is not None),
+            "rolling_faces_by_family": dict(roll_fam),
             "zero_translation_components": sum(1 for c in cases for x in c["t"] if _F(x) == 0),
             "oracle_solves": _RUNSTATS["solves"], "singular_mixed_systems_skipped": _RUNSTATS["singular_mixed"],
             "max_condition_number_solved": _RUNSTATS["max_cond"], "max_solve_error_rel": _RUNSTATS["max_solve_err"],
